@@ -439,4 +439,94 @@ theorem fasta_Write_eq (hF : GoSrc.fasta_Write_Found = true) (n s : Bytes) (w : 
      · simp [h0])
 
 
+/-! ### On a writer that accepts `k` more bytes -/
+
+theorem wrWriteAll_take (k : Nat) (o : Bytes) (calls : List Bytes) :
+    wrWriteAll ⟨k, o⟩ calls
+      = (⟨k - (calls.flatten.take k).length, o ++ calls.flatten.take k⟩,
+         if calls.flatten.length ≤ k then GoErr.nil else GoErr.other) := by
+  rw [wrWriteAll_runWriter', runWriter_bytes]
+  congr 1
+  by_cases h : calls.flatten.length ≤ k
+  · simp only [(runWriter_ok_iff k calls).2 h, h, ↓reduceIte]
+  · have : (runWriter k calls).2 = false := by
+      cases hb : (runWriter k calls).2
+      · rfl
+      · exact absurd ((runWriter_ok_iff k calls).1 hb) h
+    simp only [this, h, ↓reduceIte, Bool.false_eq_true]
+
+/-- FASTA `Write` on a writer with `k` bytes of room: an error iff the record's text is longer than
+`k`; the bytes accepted are the first `k` bytes of the text -/
+theorem fasta_Write_fault (hF : GoSrc.fasta_Write_Found = true) (n s : Bytes) (k : Nat) (o : Bytes) :
+    GoSrc.fasta_Write n s ⟨k, o⟩
+      = some (if (Fasta.encode 80 ⟨n, s⟩).length ≤ k then GoErr.nil else GoErr.other,
+          ⟨k - ((Fasta.encode 80 ⟨n, s⟩).take k).length, o ++ (Fasta.encode 80 ⟨n, s⟩).take k⟩) := by
+  rw [fasta_Write_eq hF, wrWriteAll_take]
+  rfl
+
+theorem fastq_Write_fault (hF : GoSrc.fastq_Write_Found = true) (n s q : Bytes) (k : Nat) (o : Bytes) :
+    GoSrc.fastq_Write n s q ⟨k, o⟩
+      = some (if (Fastq.encode ⟨n, s, q⟩).length ≤ k then GoErr.nil else GoErr.other,
+          ⟨k - ((Fastq.encode ⟨n, s, q⟩).take k).length, o ++ (Fastq.encode ⟨n, s, q⟩).take k⟩) := by
+  rw [fastq_Write_eq hF]
+  by_cases h : (Fastq.encode ⟨n, s, q⟩).length ≤ k
+  · simp [wrWrite, h, List.take_of_length_le h]
+  · have hk : k ≤ (Fastq.encode ⟨n, s, q⟩).length := by omega
+    simp [wrWrite, h, List.length_take, Nat.min_eq_left hk]
+
+/-- `for _, r := range rs { if err := r.Write(w); err != nil { return err } }` over the translated
+FASTA `Write` -/
+def fastaWriteAll : List Fasta.Fa → Wr → Option (GoErr × Wr)
+  | [], w => some (GoErr.nil, w)
+  | r :: rs, w =>
+    match GoSrc.fasta_Write r.name r.seq w with
+    | none => none
+    | some (GoErr.nil, w') => fastaWriteAll rs w'
+    | some (err, w') => some (err, w')
+
+/-- the same over the translated FASTQ `Write` -/
+def fastqWriteAll : List Fastq.Fq → Wr → Option (GoErr × Wr)
+  | [], w => some (GoErr.nil, w)
+  | r :: rs, w =>
+    match GoSrc.fastq_Write r.name r.seq r.quals w with
+    | none => none
+    | some (GoErr.nil, w') => fastqWriteAll rs w'
+    | some (err, w') => some (err, w')
+
+theorem fastaWriteAll_ok (hF : GoSrc.fasta_Write_Found = true) (rs : List Fasta.Fa) (k : Nat) (o : Bytes)
+    (h : (Fasta.encodeAll 80 rs).length ≤ k) :
+    fastaWriteAll rs ⟨k, o⟩
+      = some (GoErr.nil, ⟨k - (Fasta.encodeAll 80 rs).length, o ++ Fasta.encodeAll 80 rs⟩) := by
+  induction rs generalizing k o with
+  | nil => simp [fastaWriteAll, Fasta.encodeAll]
+  | cons r rs ih =>
+    have he : Fasta.encodeAll 80 (r :: rs) = Fasta.encode 80 r ++ Fasta.encodeAll 80 rs := by
+      simp [Fasta.encodeAll]
+    rw [he, List.length_append] at h
+    have h1 : (Fasta.encode 80 r).length ≤ k := by omega
+    rw [fastaWriteAll, fasta_Write_fault hF r.name r.seq k o]
+    simp only [h1, if_true, List.take_of_length_le h1]
+    rw [ih _ _ (by omega), he]
+    simp only [List.length_append, List.append_assoc]
+    congr 3
+    omega
+
+theorem fastqWriteAll_ok (hF : GoSrc.fastq_Write_Found = true) (rs : List Fastq.Fq) (k : Nat) (o : Bytes)
+    (h : (Fastq.encodeAll rs).length ≤ k) :
+    fastqWriteAll rs ⟨k, o⟩
+      = some (GoErr.nil, ⟨k - (Fastq.encodeAll rs).length, o ++ Fastq.encodeAll rs⟩) := by
+  induction rs generalizing k o with
+  | nil => simp [fastqWriteAll, Fastq.encodeAll]
+  | cons r rs ih =>
+    have he : Fastq.encodeAll (r :: rs) = Fastq.encode r ++ Fastq.encodeAll rs := by
+      simp [Fastq.encodeAll]
+    rw [he, List.length_append] at h
+    have h1 : (Fastq.encode r).length ≤ k := by omega
+    rw [fastqWriteAll, fastq_Write_fault hF r.name r.seq r.quals k o]
+    simp only [h1, if_true, List.take_of_length_le h1]
+    rw [ih _ _ (by omega), he]
+    simp only [List.length_append, List.append_assoc]
+    congr 3
+    omega
+
 end Bio.GoSrcLemmas
